@@ -43,7 +43,7 @@ void harness (void)
   M.dest_of = nondet_bool () ? &ts_conns[1] : &ts_conns[2];
   M.unknown_stripped = 0; M.container_cleared = 0;
   M.local_disconnected = nondet_bool (); M.auto_start = nondet_bool (); M.no_reply = nondet_bool (); M.has_fds = nondet_bool (); M.is_hello = nondet_bool ();
-  M.error_name = TS_ERR_NONE; M.in_reply_to = NULL; M.has_string_arg = 0; M.string_arg = NULL; M.refs = 1;
+  M.error_name = TS_ERR_NONE; M.in_reply_to = NULL; M.has_string_arg = 0; M.string_arg = NULL; M.n_string_args = 0; M.refs = 1;
   /* precondition of bus_dispatch: the message came through the loader.
    * S: "The serial of this message [...] This must not be zero."  (enforced by _dbus_header_load, C01) */
   __CPROVER_assume (M.serial != 0);
